@@ -7,7 +7,9 @@ use std::collections::{HashMap, HashSet};
 
 verus! {
 global size_of usize == 8;
+#[derive(Clone, Copy, PartialEq, Eq, Structural)]
 //@item src/opcodes.rs enum OpcodeKind
+#[derive(Clone, Copy, PartialEq, Eq, PartialOrd, Ord, Structural)]
 //@item src/protocol.rs enum Version
 } // verus!
 
@@ -347,6 +349,7 @@ impl Generator {
         &&& (op == OpcodeKind::Ext1 || op == OpcodeKind::Ext2 || op == OpcodeKind::Ext4) ==> self.allow_ext_opcodes
         &&& (op == OpcodeKind::NextBuffer || op == OpcodeKind::ReadOnlyBuffer) ==> self.allow_buffer_opcodes
         &&& op == OpcodeKind::Proto ==> !self.state.proto_emitted
+        &&& op == OpcodeKind::BinPut ==> self.state.memo@.len() < 256
         &&& self.sim_pre(op)
     }
 
@@ -376,6 +379,7 @@ impl Generator {
         res && (opcode == OpcodeKind::Ext1 || opcode == OpcodeKind::Ext2 || opcode == OpcodeKind::Ext4) ==> self.allow_ext_opcodes, // @C10
         res && (opcode == OpcodeKind::NextBuffer || opcode == OpcodeKind::ReadOnlyBuffer) ==> self.allow_buffer_opcodes, // @C10
         res && opcode == OpcodeKind::Proto ==> !self.state.proto_emitted, // @C05
+        res && opcode == OpcodeKind::BinPut ==> self.state.memo@.len() < 256, // @C02
         res ==> self.sim_pre(opcode), // @C17
         res ==> self.guard_ok(opcode, r),
 //@arm SetItems
